@@ -21,6 +21,37 @@ CHECKS = {
  "C05": dict(level=MC, design="7/C05", technique="TLC executes the normalized program under the IR semantics and evaluates the type invariant on every intermediate store of every path and iteration",
    text="Inferred Finite types (not user-declared ones) must contain the value of the variable in every store that exists after any assignment in any iteration, including frozen iterations after the guard became false; type_fp_iterations in {100,1} quick, {100,1,2} thorough.",
    note="Depth-bounded for infinite-state programs; exhaustive over paths up to N iterations."),
+
+ "C06": dict(level=MC, design="7/C06", technique="TLA+ trace validation: every printed basis polynomial evaluated on goal quantities computed by the LoopDist semantics (clause inv) at every n past the listed special cases",
+   text="Goal quantities (moments, central moments, cumulants, variable values) are computed by TLC from the source program, or from a deterministic companion loop for tuples of exponential polynomials given directly to InvariantIdeal; each reported basis element must evaluate to exactly 0 for K < n <= N.",
+   note="Bounded in n and in the subject list (12 programs, 18 fixed + seeded random tuples); rational bases for direct tuples."),
+ "C07": dict(level=MC, design="7/C07", technique="bounded completeness: all relations up to degree d found by exact linear algebra on TLC-computed goal sequences, re-verified by TLC (clause inv) beyond the C-finite order bound, then tested for membership in the reported ideal",
+   text="Every polynomial relation of total degree <= d that the semantic goal sequences satisfy (verified by TLC on a window longer than the order bound for linear deterministic subjects) must lie in the ideal generated by Polar's reported basis; an empty basis must mean no relation exists.",
+   note="Degree-bounded (2 quick / 3 thorough); sympy nullspace and Groebner containment (on the printed basis, not Polar's code path) are trusted."),
+ "C09": dict(level=MC, design="7/C09", technique="TLA+ trace validation of the moment-given-termination sequence against E[M ; not guard]/P(not guard) of the source program (clause cmom), aligned and lagged",
+   text="get_moment_given_termination evaluated at every n is compared with the conditional expectation given the guard is false computed by the semantics; the known one-iteration lag (finding D9) is recognised by a second, lagged clause so that any other deviation is still reported.",
+   note="Sequence clause only; the limit n -> infinity is not decided. KNOWN-FINDING D9 is printed while it persists."),
+ "C10": dict(level=MC, design="7/C10", technique="dual-number semantics in TLA+: the parameter is seeded p0 + eps in the abstract program, the eps-part of Moment() is the exact derivative; both Polar sensitivity methods trace-validated against it",
+   text="Sensitivity recurrences (DiffRecBuilder) and the differentiated closed form are both bound at every n <= N and 2 parameter points to the derivative carried by the dual-number scalars of spec/Exact.tla through the LoopDist behaviour.",
+   note="Parameters in probabilities and symbolic initial values of generated programs."),
+ "C11": dict(level=MC, design="7/C11", technique="TLA+ trace validation: central moments from the definition and cumulants from the set-partition formula on the exact law vs Polar's conversions of its closed forms",
+   text="For orders k <= 4, Polar's central moments and cumulants evaluated at every n must equal sum w (M - EM)^k and the partition-formula cumulant computed by TLC on the exact distribution.",
+   note="Tail bounds and the Gram-Charlier / Cornish-Fisher expansions are not covered yet (see DESIGN.md section 8)."),
+ "C12": dict(level=MC, design="7/C12", technique="exhaustive enumeration of the simulator's random resolutions (scripted random sources) trace-validated against the path machine spec/LoopSem.tla; induced distribution compared with LoopDist; TLC-generated behaviours replayed into the simulator",
+   text="Every resolution of every random call of Simulator.simulate up to N iterations is a recorded run; each must be a behaviour of LoopSem (same alternatives, probabilities, guard decisions, successor stores), runs must be distinct and their weights grouped by final store must equal the lifted distribution. Conversely TLC-simulated behaviours are forced onto the simulator and stores compared.",
+   note="Programs with dyadic constants (float exactness); sampler call conventions of continuous families are not covered yet."),
+ "C16": dict(level=MC, design="7/C16", technique="TLC scans every exponent vector of a box and checks soundness, independence and completeness of Polar's lattice basis with exact arithmetic in Q, Q(i), Q(sqrt d) (spec/ExpLattice.tla)",
+   text="For fixed and seeded lists of rational, Gaussian and real-quadratic bases, every basis vector must be a relation, the basis must have full rank, and every relation in [-B,B]^k must be an integer combination of the basis.",
+   note="Completeness inside the box only; base lists sampled from the stated menus."),
+ "C17": dict(level=MC, design="7/C17", technique="every option combination is a separate trace of the same LoopDist behaviour (clause mom / momI with the is_exact rule)",
+   text="cond2arithm, transform_categoricals, forced cyclic solver, declared vs inferred types and the numeric root options are each validated against the same semantics, so any two settings agree; results flagged exact must be equal, rounded ones within a stated tolerance.",
+   note="force_cyclic_solver is passed through a run-time wrapper (not reachable from the CLI)."),
+ "C19": dict(level=MC, design="7/C19", technique="spellings of one abstract program: Polar's parse of each text refines the abstract program (clause equiv) and its closed forms equal the abstract program's moments; ill-formed texts and invalid probability vectors must be rejected",
+   text="Seven spellings per template (whitespace/comments, parentheses, decimals, explicit last probability, temporaries, nested else-if) are each validated against the generator's abstract program; 33 texts outside the grammar / with invalid probability vectors must end in an error.",
+   note="No grammar model: rejection is checked for listed mutation classes only."),
+ "C20": dict(level=MC, design="7/C20", technique="spec/Session.tla models the process-global state; TLC enumerates all bounded histories, predicts hidden state and name collisions; behaviours replayed in one real process and compared with fresh-process references; goal orders and hash seeds replayed",
+   text="All histories up to 3 (quick) / 4 (thorough) actions over 5 programs x 3 option toggles; after every action the real unique-name counter, settings and class flag must equal the model's, and every result must equal the fresh reference up to renaming of generated symbols.",
+   note="Alphabet of programs is fixed; caches are not modelled (their keys are object identities or pure function arguments)."),
 }
 
 def entry(pid, c):
